@@ -1341,3 +1341,46 @@ func ngcOK(c *NoiseGrpcConn) bool {
 //@   requires gt != nil
 //@   ensures @C11 is[*grpcTransport](t) && fresh(as[*grpcTransport](t)) && as[*grpcTransport](t).mailboxInfo == gt.mailboxInfo &&
 //@           same(as[*grpcTransport](t).client, gt.client) && isnil(as[*grpcTransport](t).receiveStream) && isnil(as[*grpcTransport](t).sendStream)
+
+// The record-level methods of NoiseConn hand the transport the connection was
+// created with (and no other reader or writer) to the Machine, and pass its
+// results on unchanged.
+//@ func (c *NoiseConn) ReadNextMessage() (out []byte, err error)
+//@   props C02 C16 C07
+//@   requires nkinv(c)
+//@   modifies cryptolog(), c.noise.nextCipherHeader, c.noise.recvCipher.nonce, c.noise.recvCipher.secretKey, c.noise.recvCipher.salt, c.noise.recvCipher.cipher
+//@   ensures nkinv(c)
+//@   ensures @C02 implies(err == nil, nopens() == old(nopens())+2 && openok(nopens()-2) && openok(nopens()-1))
+//@   ensures @C02 implies(err != nil, isnil(out))
+
+//@ func (c *NoiseConn) ReadNextHeader() (pktLen uint32, err error)
+//@   props C02 C16 C07
+//@   requires nkinv(c)
+//@   modifies cryptolog(), c.noise.nextCipherHeader, c.noise.recvCipher.nonce, c.noise.recvCipher.secretKey, c.noise.recvCipher.salt, c.noise.recvCipher.cipher
+//@   ensures nkinv(c)
+//@   ensures @C02 implies(err == nil, nopens() == old(nopens())+1 && openok(nopens()-1) && pktLen >= macSize && pktLen <= math.MaxUint16+macSize)
+
+//@ func (c *NoiseConn) ReadNextBody(buf []byte) (out []byte, err error)
+//@   props C02 C16 C07
+//@   requires nkinv(c)
+//@   modifies cryptolog(), elems(buf), c.noise.recvCipher.nonce, c.noise.recvCipher.secretKey, c.noise.recvCipher.salt, c.noise.recvCipher.cipher
+//@   ensures nkinv(c)
+//@   ensures @C02 implies(err == nil, nopens() == old(nopens())+1 && openok(nopens()-1) && openctis(nopens()-1, buf) && len(out) == len(buf)-macSize)
+//@   ensures @C02 implies(err != nil, isnil(out))
+
+//@ func (c *NoiseConn) WriteMessage(b []byte) (err error)
+//@   props C16 C07
+//@   requires nkinv(c)
+//@   modifies cryptolog(), c.noise.nextHeaderSend, c.noise.nextBodySend, c.noise.sendCipher.nonce, c.noise.sendCipher.secretKey, c.noise.sendCipher.salt, c.noise.sendCipher.cipher
+//@   ensures nkinv(c)
+//@   ensures @C16 implies(len(b) <= math.MaxUint16 && old(pending(c.noise)), err == ErrMessageNotFlushed)
+//@   ensures @C16 implies(err != nil, nseals() == old(nseals()) && sameslice(c.noise.nextHeaderSend, old(c.noise.nextHeaderSend)) && sameslice(c.noise.nextBodySend, old(c.noise.nextBodySend)))
+//@   ensures @C16 implies(err == nil, len(c.noise.nextHeaderSend) == encHeaderSize && len(c.noise.nextBodySend) == len(b)+macSize)
+
+//@ func (c *NoiseConn) Flush() (nn int, err error)
+//@   props C16 C07
+//@   requires nkinv(c)
+//@   modifies wire(), c.noise.nextHeaderSend, c.noise.nextBodySend
+//@   ensures nkinv(c)
+//@   ensures @C16 wirelen() == old(wirelen()) + (old(len(c.noise.nextHeaderSend)) - len(c.noise.nextHeaderSend)) + (old(len(c.noise.nextBodySend)) - len(c.noise.nextBodySend))
+//@   ensures @C16 implies(len(c.noise.nextHeaderSend) > 0, len(c.noise.nextBodySend) == old(len(c.noise.nextBodySend)))
